@@ -455,14 +455,5 @@ def replay(v):
     if "config" not in c:
         run_program(a, c, prog, [(0,), (3,), (-2,)], ["mc1"], (False,), local_subs=c.get("local_subs", False))
         return a.violations, None
-    d, ns, src = build(prog, c["config"], c["is_async"], c.get("local_subs", False))
-    args = tuple(c["args"])
-    if c["is_async"]:
-        async def op():
-            return await d(*args)
-    else:
-        def op():
-            return d(*args)
-    res = H.run_controlled(op, prefix=tuple(v["prefix"]), is_async=c["is_async"])
-    compare(a, c, prog, args, res, ir.ref_eval(prog, args), src)
-    return a.violations, res.trace
+    from ..prog import replay_built
+    return replay_built(a, v)
